@@ -2,6 +2,7 @@
    Nothing but the property theorems; proofs are in Proofs/Retry.v and Bridge/C16Skel.v.
    ISO-DEP (Type 4) retry budgets: Props/C12.v (exactly-once / budget theorems), cited, not redone. *)
 From Coq Require Import ZArith List Bool.
+From NV Require Bridge.C16Reader Gen.DriverSkel.
 From NV Require Import Base.Result Model.Retry Proofs.Retry Skel.ExnSyntax Skel.ExnCheck Gen.TagSkel Bridge.C16Skel.
 Import ListNotations.
 
@@ -129,6 +130,20 @@ Print Assumptions never_raw_commerror.
 Theorem activate_closed : forall c, ~ can_escape (prog_activate exch_any) entry_activate c.
 Proof. exact activate_closed_lemma. Qed.
 Print Assumptions activate_closed.
+
+(* ---------------------------------------------------------------- drivers vs. tag layer (skeletons of C13, this run)
+   the reader side of every hardware driver (Device.send_cmd_recv_rsp as resolved for that driver) raises no
+   CommunicationError class other than the three the tag layer handles (plus IOError without a device and the
+   visible PN531 Type 1 stub): in particular no BrokenLinkError reaches a tag command *)
+Theorem reader_side_errors_handled : C16Reader.reader_side_stmt C16Reader.hardware_readers C16Reader.reader_allowed.
+Proof. exact C16Reader.reader_side_lemma. Qed.
+Print Assumptions reader_side_errors_handled.
+
+(* the UDP test driver is the exception (open finding): its reader side can also raise BrokenLinkError *)
+Theorem udp_reader_side_errors :
+  C16Reader.reader_side_stmt C16Reader.udp_readers (C16Reader.reader_allowed ++ [DriverSkel.C_BrokenLinkError]).
+Proof. exact C16Reader.udp_reader_side_lemma. Qed.
+Print Assumptions udp_reader_side_errors.
 
 (* ---------------------------------------------------------------- non-vacuity *)
 Example C16_nonvacuous :
